@@ -17,6 +17,15 @@
 (*                  reversed iteration = reversed position order           *)
 (*  HitOrderOK      scan::Hit is ordered by (score, position)              *)
 (*  ScaleBracketOK  DiscreteMatrix: unscale(scale(x)) <= x (+1 step above) *)
+(*  AlphabetOK      letters / ranks / characters round trip, exactly the   *)
+(*                  upper-case letters are accepted, the wildcard is the   *)
+(*                  last and the default symbol, uniform background and    *)
+(*                  scalar pseudocounts leave the wildcard at 0, the DNA   *)
+(*                  complement is the Watson-Crick involution              *)
+(*  InfoContent     WeightMatrix::information_content = sum f log2(f / b)  *)
+(*  ScannerDefaults threshold 0 and any builder order: hits = positions    *)
+(*                  scoring >= threshold with their scores                 *)
+(*  SequenceApiOK   EncodedSequence / StripedSequence as containers        *)
 (***************************************************************************)
 EXTENDS Pwm
 
@@ -31,4 +40,34 @@ BgCounted(seqs, K, unknown) == [k \in 1..K |-> IF k = K /\ ~unknown THEN 0 ELSE 
 EntropyScaled(row, K) ==
   LET n == PlainSum(row, K) IN PlainSum([k \in 1..K |-> IF row[k] = 0 THEN 0 ELSE row[k] * (Lg(n) - Lg(row[k]))], K)
 RowTotal(row, K) == PlainSum(row, K)
+
+\* ---------------------------------------------------------------- alphabets
+Distinct(sq) == \A i, j \in 1..Len(sq) : i # j => sq[i] # sq[j]
+SeqSet(sq) == {sq[i] : i \in 1..Len(sq)}
+AlphabetOK(e) ==
+  LET K == e.K  u == e.uniform IN
+  /\ Len(e.letters) = K /\ Distinct(e.letters)
+  /\ \A i \in 1..K : e.letters[i] >= 65 /\ e.letters[i] <= 90            \* upper-case ASCII letters
+  /\ e.idx = [i \in 1..K |-> i - 1]                                      \* symbols() lists the symbols in rank order
+  /\ e.ascii = e.letters                                                 \* symbol of rank i is written letters[i]
+  /\ e.back = [i \in 1..K |-> i - 1]                                     \* and read back from it
+  /\ SeqSet(e.accepted) = SeqSet(e.letters) /\ Len(e.accepted) = K        \* nothing else is accepted (no lower case)
+  /\ e.nonascii_rejected
+  /\ e.default = K - 1                                                   \* the wildcard: last rank, default symbol
+  /\ \A k \in 1..(K - 1) : QNear(u[k], 1, K - 1, 4096, 1)
+  /\ u[K] = 0 /\ e.default_bg = u /\ e.bg_index = u
+  /\ e.pseudo_half = [k \in 1..K |-> IF k = K THEN 0 ELSE 2048]
+  /\ e.pseudo_default = [k \in 1..K |-> 0]
+  /\ (e.comp # <<>> =>
+        /\ \A k \in 1..K : e.comp[e.comp[k] + 1] = k - 1                  \* involution
+        /\ \A k \in 1..K : <<e.letters[k], e.letters[e.comp[k] + 1]>> \in
+               {<<65, 84>>, <<84, 65>>, <<67, 71>>, <<71, 67>>, <<78, 78>>})
+
+\* ---------------------------------------------------------------- information content
+\* 1024 * sum_i sum_k f log2(f (K-1)) with f = (c + p) / row total, uniform background
+InfoRow(row, pn, pd, K) ==
+  LET fd == FreqDen(row, pn, pd, K) IN
+  PlainSum([k \in 1..K |-> LET fnum == FreqNum(row, pn, pd, k) IN
+              IF k = K \/ fnum = 0 THEN 0 ELSE (fnum * (Lg(fnum) - Lg(fd) + Lg(K - 1))) \div fd], K)
+InfoContent(m, pn, pd, K) == PlainSum([i \in 1..Len(m) |-> InfoRow(m[i], pn, pd, K)], Len(m))
 =============================================================================
